@@ -420,7 +420,7 @@ fn kill_sweep(rep: &Report, c: &Case, max_points: usize) {
 pub fn run(opts: &Opts) -> i32 {
     let rep = Report::new("C06", "fault_enumeration", opts);
     rep.set("exhaustive", true);
-    rep.set("rule", "actions {commit (create + modify + delete), undo, rebuild working set (both modes), sync against a server holding another replica's version} on two prior SQLite replicas; (1) for EVERY storage call index of the action: the call fails, or the future is dropped there (process stops), the handle is dropped and the directory re-opened; (2) a child process performs the action under strace and is SIGKILLed at the entry of every write-class syscall (pwrite64/write/fsync/fdatasync/ftruncate/unlink/rename), including those of the checkpoint on close after the action was acknowledged; oracle: the state seen by a read-only re-open equals the one seen by a read-write re-open, and that state is entirely the before-state or entirely the after-state (the working-set rebuild of sync/undo is its own transaction), never after when abandoned before the commit, always after when the action had returned; distinct_nontrivial = interruption points after the first storage call / at a write syscall");
+    rep.set("rule", "actions {commit (create + modify + delete), undo, rebuild working set (both modes), sync against a server holding another replica's version} on two prior SQLite replicas, and undo (thorough: also sync) on a replica whose undo span holds 1200 operations (every transaction boundary with its neighbours and every 499th (thorough 97th) call in between); (1) for EVERY storage call index of the action: the call fails, or the future is dropped there (process stops), the handle is dropped and the directory re-opened; (2) a child process performs the action under strace and is SIGKILLed at the entry of every write-class syscall (pwrite64/write/fsync/fdatasync/ftruncate/unlink/rename), including those of the checkpoint on close after the action was acknowledged; oracle: the state seen by a read-only re-open equals the one seen by a read-write re-open, and that state is entirely the before-state or entirely the after-state (the working-set rebuild of sync/undo is its own transaction), never after when abandoned before the commit, always after when the action had returned; distinct_nontrivial = interruption points after the first storage call / at a write syscall");
     rep.assume("process-kill semantics (the kernel keeps written pages); power loss and SQLite's own recovery code are trusted");
     let q = opts.tier == Tier::Quick;
     let plan: Vec<(Prior, Action)> = if q {
